@@ -43,6 +43,9 @@ var c07Sets = [][]c07Route{
 	// expression (if such a route is accepted, serving it must still not panic)
 	{{"GET", `/{x: /(a)\Qz\E/}{y: /\Qb\E/}`, nil}, {"GET", "/{p}", nil}},
 	{{"GET", `/{x: /(a)\Q/}{y: /\Qb\E/}`, nil}, {"GET", "/{p}", nil}},
+	// capture limits at the edges of their range (non-positive means unlimited)
+	{{"GET", "/a/{m: **, capture: -1}/z", nil}, {"GET", "/{n: **, capture: 0}", nil}},
+	{{"GET", "/a/{m: **, capture: 9223372036854775807}/z", nil}, {"GET", "/z/{n: **, capture: -9223372036854775808}", nil}},
 	// a larger mixed table (many siblings of every kind under two prefixes)
 	{{"GET", "/", nil}, {"GET", "/a", nil}, {"GET", "/a/", nil}, {"GET", "/a/b", nil}, {"GET", "/a/{x}", nil}, {"GET", "/a/{r: /[a2]+/}/z", nil}, {"GET", "/a/{m: **, capture: 3}/z", nil},
 		{"GET", "/a/c/?d", nil}, {"GET", "/z/{p}/{q}", nil}, {"GET", "/z/{p}/{q}/{r: /z+/}", nil}, {"GET", "/z/{m: **}", nil}, {"GET", "/{x}/z", nil}, {"GET", "/{s: /[.?]+/}", nil},
